@@ -50,9 +50,9 @@ type layoutSpec struct {
 	idStep     map[int]int    // shard -> blocks written so far
 	containers map[string]int // "metric/shard" -> roaring containers of the metric's series ids there (read back)
 	seriesIn   map[string]int // "metric/shard" -> series
-	db         string // logical database name; node i is the database db@n<i>
-	shardOf []int  // series -> shard (production routing)
-	nodeOf  []int  // series -> node
+	db         string         // logical database name; node i is the database db@n<i>
+	shardOf    []int          // series -> shard (production routing)
+	nodeOf     []int          // series -> node
 	// requests written through a pooled batch object: it held more rows before / held rows before / never held a row
 	poolShrunk, poolReused, poolFresh int
 }
@@ -1355,7 +1355,12 @@ func (e *env) withheldResponses(q *querySpec, sql string, l *layoutSpec, names [
 	waiter, level := "root:1", "root"
 	if viaMid {
 		waiter, level = "mid0:1", "intermediate"
-		picks = picks[:1+e.seq%2] // one or two of them
+		if len(sql)%2 == 0 && len(picks) > 1 { // one or two of them (a function of the case)
+			picks = picks[:len(picks)-1]
+		}
+		if len(picks) > 2 {
+			picks = picks[:2]
+		}
 	}
 	for pi, p := range picks {
 		late := pi%2 == 1
